@@ -381,7 +381,7 @@ def rule_model(ctx, wiring, max_ops, deno_ops):
     """bounded check of the MODEL: for all expressions up to max_ops operators over {a,b}: a discrepancy between the as-built and the regex
     language occurs only where R2's criterion flags an application; the DFA pipeline agrees with the set-theoretic denotation."""
     ctx.rule("R3-MODEL", "bounded check of the model over {a,b}: as-built≠regex only where R2 flags an application; DFA pipeline == denotational semantics",
-             floor=170 if max_ops <= 2 else 2000)
+             floor={2: 170, 3: 2256, 4: 33826}.get(max_ops, 0))
     model = wiring.model()
     by_ops = _enumerate_exprs(max_ops)
     memo_a, memo_r, flagged_memo, dfa_r, dfa_a = {}, {}, {}, {}, {}
